@@ -1,7 +1,10 @@
-(* C20 — concurrent read-only queries return the serial answers (theorems are added as they close).
+(* C20 — concurrent read-only queries return the serial answers (interleaving model).
+   PARTIAL in the same sense as C07: two premises about the immutable postings table are explicit (slicing twice = slicing
+   once; a document's phrase count depends only on that document's postings, whichever of the two handles each term
+   was read through).  What the model cannot exhibit: real preemption points, nogil sections, dict atomicity.
    Model: Conc/Conc.v (queries as programs of atomic actions on the shared state of View/Purity.v). *)
 From Coq Require Import ZArith.
-From SA Require Import Base.Prelude Index.Index View.View View.Purity Conc.Conc.
+From SA Require Import Base.Prelude Index.Index View.View View.Purity View.Purity_Proofs Conc.Conc Conc.Conc_Proofs.
 Open Scope N_scope.
 (* an interleaving in which a view is sliced (its handle reset) between the two term reads of a phrase query *)
 Example C20_interleaving_example :
@@ -15,3 +18,36 @@ Example C20_interleaving_example :
       results inter = results ser
   | _ => False end.
 Proof. vm_compute. reflexivity. Qed.
+
+(* in EVERY interleaving (any schedule, finished or not), a thread that has finished holds the history-free answer
+   computed on the initial pool *)
+Theorem C20_every_interleaving_partial : forall (good_posts : posts -> N -> Prop),
+  slice_idem_hyp good_posts -> phrase_mixed_local_hyp good_posts ->
+  forall p0 queries pgs sched p' ths',
+  Inv good_posts p0 -> progs_of p0 queries = Some pgs ->
+  run_sched p0 (map spawn pgs) sched = (p', ths') ->
+  forall i q th r, nth_error queries i = Some q -> nth_error ths' i = Some th -> th_result th = Some r ->
+    is_select q = false -> Some r = pure_answer p0 (op_of q).
+Proof. exact sched_results_pure. Qed.
+Print Assumptions C20_every_interleaving_partial.
+
+(* any schedule that lets every thread finish gives exactly the results of the serial schedule *)
+Theorem C20_schedule_eq_serial_partial : forall (good_posts : posts -> N -> Prop),
+  slice_idem_hyp good_posts -> phrase_mixed_local_hyp good_posts ->
+  forall p0 queries pgs s, Inv good_posts p0 -> progs_of p0 queries = Some pgs ->
+  all_done (snd (run_sched p0 (map spawn pgs) s)) ->
+  results (snd (run_sched p0 (map spawn pgs) s))
+  = results (snd (run_sched p0 (map spawn pgs) (serial_schedule (map spawn pgs)))).
+Proof. exact C20_any_schedule_eq_serial. Qed.
+
+(* the serial schedule always finishes every thread (no premise): the comparison above is never vacuous *)
+Theorem C20_serial_finishes : forall p ths, all_done (snd (run_sched p ths (serial_schedule ths))).
+Proof. exact serial_all_done. Qed.
+Print Assumptions C20_serial_finishes.
+
+(* each atomic action preserves the cache invariant, only appends arrays, only grows the heap (no premise) *)
+Theorem C20_action_inv : forall (good_posts : posts -> N -> Prop) p a v p',
+  Inv good_posts p -> action_wf p a -> do_action p a = (v, p') ->
+  Inv good_posts p' /\ (exists extra, arrays p' = arrays p ++ extra) /\ heap_le p p'.
+Proof. exact do_action_inv. Qed.
+Print Assumptions C20_action_inv.
